@@ -233,10 +233,13 @@ func c15Run(g *GroupSet, q *Query, final bool) (crashed bool) {
 // VerifC15Outfile: prior state x (interim|final) run killed at any operation x follow-up run.
 func VerifC15Outfile(appendMode int) {
 	dlog.VerifInstall(source.Client)
-	queryStr := "select a,count(b) from T group by a outfile " + c15Out
+	// the ways a query (or a job definition plus the outfile the scheduler adds) names the
+	// outfile: the last outfile clause is the one that counts
+	forms := []string{"outfile " + c15Out, "outfile append /other.csv outfile " + c15Out, "outfile /other.csv outfile " + c15Out}
 	if appendMode == 1 {
-		queryStr = "select a,count(b) from T group by a outfile append " + c15Out
+		forms = []string{"outfile append " + c15Out, "outfile /other.csv outfile append " + c15Out, "outfile append /other.csv outfile append " + c15Out}
 	}
+	queryStr := "select a,count(b) from T group by a " + forms[verifrt.Choose("outfile-clause", len(forms))]
 	q, err := NewQuery(queryStr)
 	verifrt.Assert(err == nil, "query")
 	v := verifrt.StringIn("v", 2, "abcxyz019")
